@@ -74,6 +74,25 @@ def mulAdd (a b c : R) : R := a * b + c
 def recip (a : R) : R := ofNatLit 1 / a
 def sq (a : R) : R := a * a
 
+/-- the loop of compiler-rt's `__powidf2` (what `f64::powi` compiles to): square and multiply -/
+def powiLoop : Nat → R → R → Nat → R
+  | 0, _, r, _ => r
+  | fuel + 1, a, r, n =>
+    let r := if n % 2 == 1 then r * a else r
+    let n := n / 2
+    if n == 0 then r else powiLoop fuel (a * a) r n
+
+/-- Rust `f64::powi` -/
+def powi (x : R) (n : Int) : R :=
+  let r := powiLoop 64 x (ofNatLit 1) n.natAbs
+  if n < 0 then ofNatLit 1 / r else r
+
+/-- Rust `f64::fract`: `x - x.trunc()` -/
+def fract (x : R) : R := x - trunc x
+/-- Rust `f64::clamp` for `lo ≤ hi` (NaN stays NaN) -/
+def clamp (x lo hi : R) : R := if lt x lo then lo else if gt x hi then hi else x
+def isInfinite (x : R) : Bool := !isNaN x && !isFinite x
+
 end Scalar
 
 /-! ### the executable reading -/
